@@ -494,7 +494,8 @@ double cmb_random_std_gamma(const double shape)
         } while (v <= 0.0);
 
         double w = v * v * v;
-        double u = cmb_random();
+        /* Uniform on (0, 1], log(u) below stays finite */
+        double u = 1.0 - cmb_random();
         if ((u < 1.0 - 0.331 * (x * x) * (x * x))
             || (log(u) < (0.5 * x * x) + (d * (1.0 - w + log(w))))) {
             const double ret = d * w;
